@@ -142,6 +142,96 @@ def h_two_inputs(ctx, rec, replay):
         ctx.eq(value_of(out, algopy), value_of(f(A, O.wrap(ctx, algopy, bx, X), O.wrap(ctx, algopy, by, Y)), algopy), 'replay %d' % k)
 
 
+def h_replay_int(ctx, pname):
+    """replay (and record) with an integer-typed ndarray, e.g. numpy.array([1, 2, 4]): the graph
+    returns what the program returns on that array directly (NumPy semantics: 2 / int array is a
+    float array).  The data are concrete whole numbers: decided on the float build."""
+    algopy = symx.load_algopy()
+    prog = get_prog(pname)
+    if ctx.mode == 'sym':
+        ctx.fact(True, 'concrete integer-typed data: decided on the float build')
+        ctx.eq(S.const(0), S.const(0), 'integer-typed replay == direct evaluation')
+        return
+    A = Namespace(algopy, make_consts(ctx, prog))
+    xi = np.array([1, 2, 4])
+    xf = np.array([1.5, 2.5, 0.5])
+    for rec_x, rep_x, label in ((xf, xi, 'float recording, integer replay'), (xi, xf, 'integer recording, float replay'), (xi, xi * 2, 'integer recording, integer replay')):
+        try:
+            ref_rec = prog.f(A, rec_x.copy())
+            ref_rep = prog.f(A, rep_x.copy())
+        except Exception:
+            continue        # NumPy itself rejects the operation on this integer array
+        cg = algopy.CGraph()
+        fx = algopy.Function(rec_x.copy())
+        fy = prog.f(A, fx)
+        cg.trace_off()
+        cg.independentFunctionList = [fx]
+        cg.dependentFunctionList = [fy]
+        ctx.eq(value_of(fy.x, algopy), value_of(ref_rec, algopy), '%s: recording value' % label)
+        try:
+            out = cg.function([rep_x.copy()])[0]
+        except Exception as e:
+            ctx.fact(False, '%s raised %s: %s' % (label, type(e).__name__, str(e).strip().splitlines()[-1][:120] if str(e).strip() else ''))
+            continue
+        ctx.eq(value_of(out, algopy), value_of(ref_rep, algopy), '%s == direct evaluation' % label)
+
+
+def h_interleaved(ctx, rec, replay, what):
+    """a finished graph is evaluated (function / gradient / pushforward+pullback) WHILE another
+    graph is being recorded: the recording continues unaffected and is complete"""
+    algopy = symx.load_algopy()
+    A = Namespace(algopy, {})
+    prog = PR.Prog('il', None, shape=(2,))
+
+    def mk(kind, name):
+        kind = tuple(kind) if not isinstance(kind, str) else kind
+        return make_value(ctx, prog, kind, name)
+    a1, R1 = mk(rec, 'r1')
+    cg1 = algopy.CGraph()
+    f1 = algopy.Function(O.wrap(ctx, algopy, a1, R1))
+    y1 = A.sum(A.sin(f1) * f1)
+    cg1.trace_off()
+    cg1.independentFunctionList = [f1]
+    cg1.dependentFunctionList = [y1]
+    n1 = len(cg1.functionList)
+
+    def g(A, x):
+        u = x * x
+        v = A.exp(u) + x
+        return v * u
+    a2, R2 = mk(rec, 'r2')
+    cg2 = algopy.CGraph()
+    f2 = algopy.Function(O.wrap(ctx, algopy, a2, R2))
+    u = f2 * f2
+    # ---- use of the first graph in the middle of the second recording
+    aw, W = mk('nd', 'w')
+    w = O.wrap(ctx, algopy, aw, W)
+    if what == 'function':
+        cg1.function([w])
+    elif what == 'gradient':
+        cg1.gradient(w)
+    else:
+        au, Wu = mk(('utpm', 1, 1), 'wu')
+        cg1.pushforward([O.wrap(ctx, algopy, au, Wu)])
+        cg1.pullback([cg1.dependentFunctionList[0].x.zeros_like() + 1.0])
+    v = A.exp(u) + f2
+    z = v * u
+    cg2.trace_off()
+    cg2.independentFunctionList = [f2]
+    cg2.dependentFunctionList = [z]
+    ctx.fact(len(cg1.functionList) == n1, 'the finished graph did not grow')
+    ctx.fp('graph2', [f.func.__name__ for f in cg2.functionList])
+    ctx.eq(value_of(z.x, algopy), value_of(g(A, O.wrap(ctx, algopy, a2, R2)), algopy), 'recording value of the second graph')
+    for k in range(2):
+        b, X = mk(replay, 'x%d' % k)
+        try:
+            out = cg2.function([O.wrap(ctx, algopy, b, X)])[0]
+        except Exception as e:
+            ctx.fact(False, 'replay of the second graph raised %s: %s' % (type(e).__name__, str(e).strip().splitlines()[-1][:120] if str(e).strip() else ''))
+            return
+        ctx.eq(value_of(out, algopy), value_of(g(A, O.wrap(ctx, algopy, b, X)), algopy), 'replay %d of the second graph' % k)
+
+
 def h_ones_zeros(ctx, rec, replay):
     """buffers allocated with zeros/ones/zeros_like/ones_like of a traced dtype"""
     algopy = symx.load_algopy()
@@ -240,5 +330,10 @@ def units(tier, seed):
     for rec, rep in [('nd', U22), (U11, U22), (U22, 'nd')]:
         out.append(Unit('C05/two-independents/rec=%s,replay=%s' % (rec, rep), 'symx.props.c05', 'h_two_inputs', {'rec': rec, 'replay': rep}, dict(opts)))
         out.append(Unit('C05/zeros-ones-buffers/rec=%s,replay=%s' % (rec, rep), 'symx.props.c05', 'h_ones_zeros', {'rec': rec, 'replay': rep}, dict(opts)))
+    for pn in ['1/x', 'x/x[::-1]', 'x/(1+x*x)', 'x*x', 'x**2', 'x**-1', 'x-const', 'const-x', 'sqrt', 'exp', 'reciprocal', 'x[0]*x[1]', 'buffer', 'sum', 'prod']:
+        out.append(Unit('C05/integer-typed arrays/%s' % pn, 'symx.props.c05', 'h_replay_int', {'pname': pn}, dict(opts)))
+    for what in ('function', 'gradient', 'pushforward+pullback'):
+        out.append(Unit('C05/another graph used while recording (%s)' % what, 'symx.props.c05', 'h_interleaved',
+                        {'rec': 'nd', 'replay': U22, 'what': what}, dict(opts)))
     out.append(Unit('C05/nested-graphs', 'symx.props.c05', 'h_nested_graphs', {}, dict(opts)))
     return out
